@@ -60,11 +60,13 @@ def unbond_step(ck, prog, nrec):
         ck.oblige('C08.unbond.user', p, bond_amount(p) != st['bond_amt'] - A, 'the bond shrinks by the amount')
         ck.oblige('C08.unbond.global', p, z3.Or(G != st['g'][0] + st['g'][1] - A, gs[0] != st['g'][0] - A, gs[1] != st['g'][1]), 'global totals shrink by the amount, on that denom only')
         ck.oblige('C08.unbond.no_transfer', p, len(effects(resp_of(p), LAIR)) != 0, 'unbonding moves no funds yet')
-        same_block = z3.Or(*[now == t for t in st['ts']]) if st['ts'] else z3.BoolVal(False)
-        ck.oblige('C08.unbond.conservation.same_block', p, z3.And(same_block, tot != sum(st['us']) + A),
+        # exactly the known behaviour: the record with the same timestamp is replaced (its amount is lost), everything else is kept
+        overwritten = z3.Or(*[z3.And(now == t, tot == sum(st['us']) + A - u_) for t, u_ in zip(st['ts'], st['us'])]) if st['ts'] else z3.BoolVal(False)
+        ck.oblige('C08.unbond.conservation.same_block', p, overwritten,
                   'an unbonding made at the same block time as an earlier pending one overwrites it', site='same-block unbond')
-        ck.oblige('C08.unbond.conservation', p, z3.And(z3.Not(same_block), z3.Or(tot != sum(st['us']) + A, totb != st['bob_u'])),
+        ck.oblige('C08.unbond.conservation', p, z3.And(z3.Not(overwritten), tot != sum(st['us']) + A),
                   'the amount moves from bonded to a new pending record without losing any existing record')
+        ck.oblige('C08.unbond.others', p, totb != st['bob_u'], 'other users\' pending records are untouched')
     ck.require(n >= 1, 'unbond: no Ok path')
 
 
